@@ -608,6 +608,7 @@ func c20Main(args []string) {
 	if os.Getenv("VERIF_C20_CHILD") == "" {
 		run.Require("storm:interrupts-delivered", 1000)
 		run.Require("interp:failed-nested-eval-scenarios", 5)
+		run.Require("interp:blocked-io-scenarios", 2)
 		c20Parent(run)
 		return
 	}
